@@ -178,7 +178,7 @@ class Shim:
                 if names == {"python_version", "python_full_version"}:
                     self._bump("pv_x_pfv_merge")
                 if any(getattr(a, "_specifier", None) is not None for a in args[:2]):
-                    self._bump("merge_operand_with_attached_specifier")
+                    self._bump("merge_operand_with_specifier_already_computed")
                 if res is not None and creator_texts is not None and any(res is a for a in args[:2]):
                     pass
                 if res is not None and creator_texts is not None and not any(res is a for a in args[:2]):
